@@ -28,11 +28,12 @@ CLAIMED = {
             "original positions emitted as UFL gives them (E3, bounded).",
             "Undecided: UFL's reduced/enabled sets themselves. Corpus-bounded over programs.",
             "sidecar contracts + VC generation (z3); per-kernel def-use/read-set SMT obligations", "4 C05"),
-    "C06": ("proof", "type order equals the ufcx enum (exhaustive), everywhere integrals not appended (syntactic); integral_data "
-            "sorted/paired/offsets contract proved for every shape with <=3 integrals (structurally bounded, not counted as proved); "
-            "descriptor arrays vs UFL on every corpus module (bounded).",
-            "np.argsort external contract; UFL grouping trusted; integral_data proof is proved(<=N) until the list-algebra proof lands.",
-            "VC generation from the Python AST with structural unrolling (z3) + exhaustive finite checks + run-time descriptor contracts", "4 C06"),
+    "C06": ("proof", "integral_data proved for lists of ANY length with the list algebra of pyvc/slist.py (length, per-type sortedness for an "
+            "arbitrary index, paired gather through one argsort permutation, offsets = number of kernels per type), type order equals the "
+            "ufcx enum (exhaustive), everywhere integrals not appended (syntactic); additionally every shape with <=3 integrals "
+            "(structurally bounded), the _compute_form_ir list-building fragment, descriptor arrays vs UFL on every corpus module (bounded).",
+            "np.argsort external contract; list lemmas L-LIST/L-GATHER/L-PERMSUM are textbook facts recorded as assumptions; UFL grouping trusted.",
+            "VC generation from the Python AST with a symbolic-length list algebra (z3) + exhaustive finite checks + run-time descriptor contracts", "4 C06"),
     "C07": ("proof", "frame/purity/accumulate obligations on every corpus kernel: only += on A, A never read, inputs never written, "
             "static only with const, temporaries declared inside the kernel (E2).",
             "C semantics of restrict/automatic storage trusted; corpus-bounded over programs.", "per-kernel obligations over the LNodes program", "4 C07"),
@@ -85,8 +86,9 @@ CLAIMED = {
     "C16": ("proof", "every constructible (parent class, operand position, child class) depth-2 tree of the real class table is formatted "
             "by the real C and numba formatters and parsed back with pycparser / Python ast to the same tree (exhaustive); literal "
             "precision p decided arithmetically (5*10^-p <= 2^-53).",
-            "L-UNPARSE (depth-2 => all trees) is pen-and-paper and needs the structural handler contracts (decision depends only on "
-            "classes), which are not yet discharged by E1; pycparser/CPython grammars trusted.",
+            "L-UNPARSE (depth-2 => all trees) is pen-and-paper; its premise (the text is op between the children in order, each child "
+            "optionally parenthesised, the choice fixed by the classes) is discharged by E1 for every expression handler of both "
+            "formatters; pycparser/CPython grammars trusted.",
             "exhaustive finite enumeration on the real formatters with independent parsers", "4 C16"),
     "C20": ("proof", "option precedence of get_options proved key-wise (E1, structurally bounded key set, not counted); the CLI forwards an "
             "option as priority iff given (exhaustive over all options and pairs, real argparse parser); CLI and JIT use the same "
@@ -94,7 +96,8 @@ CLAIMED = {
             "argparse external; stand-alone compilation and numeric equality with the JIT not decided.",
             "VC generation from the Python AST (z3) + exhaustive finite enumeration on the real CLI parser", "4 C20"),
     "C17": ("proof", "all LExpr operator overloads proved value-preserving for all operand classes/values over the reals (E1, lazy "
-            "initialisation of operands).", "A-FLOAT (0*x -> 0 etc. are identities over the reals); optimiser passes not yet under contract.",
+            "initialisation of operands).", "A-FLOAT (0*x -> 0 etc. are identities over the reals); optimiser passes are validated per call on the corpus by exact rational "
+            "evaluation (bounded), check_dependency exhaustively on generator shapes.",
             "sidecar contracts + VC generation from the Python AST (z3/cvc5)", "4 C17"),
     "C19": ("proof", "declared-once / in-scope / well-formedness obligations on every corpus kernel (E2).",
             "C compiler not run; corpus-bounded over programs.", "per-kernel scoping obligations over the LNodes program", "4 C19"),
